@@ -298,7 +298,7 @@ impl Check for BondingHistory {
             .boxed()
     }
     fn cases(&self, tier: Tier) -> u32 {
-        tier.pick(20_000, 1_500_000)
+        tier.pick(20_000, 1_000_000)
     }
     fn min_nontrivial(&self) -> f64 {
         0.02
